@@ -293,6 +293,17 @@ pub(crate) struct ComputedStyle {
 }
 
 impl ComputedStyle {
+    /// Take the colours from `parent` where this style does not set them.
+    #[cfg(feature = "css")]
+    pub(crate) fn inherit_colours(&mut self, parent: &ComputedStyle) {
+        if self.colour.val().is_none() {
+            self.colour = parent.colour;
+        }
+        if self.bg_colour.val().is_none() {
+            self.bg_colour = parent.bg_colour;
+        }
+    }
+
     /// Return the style data inherited by children.
     pub(crate) fn inherit(&self) -> Self {
         // TODO: clear fields that shouldn't be inherited
@@ -1301,9 +1312,19 @@ fn table_to_render_tree<'a, T: Write>(
 ) -> TreeMapResult<'a, HtmlContext, RenderInput, RenderNode> {
     pending(input, move |_, rowset| {
         let mut rows = vec![];
-        for bodynode in rowset {
+        for mut bodynode in rowset {
+            // The <thead>/<tbody> element is not rendered itself, so its rows
+            // take over the colours set on it.
+            let _body_style = std::mem::take(&mut bodynode.style);
             match bodynode.into_info() {
-                RenderNodeInfo::TableBody(body) => rows.extend(body),
+                #[allow(unused_mut)]
+                RenderNodeInfo::TableBody(mut body) => {
+                    #[cfg(feature = "css")]
+                    for row in body.iter_mut() {
+                        row.style.inherit_colours(&_body_style);
+                    }
+                    rows.extend(body)
+                }
                 _other => {
                     html_trace!("Found in table: {:?}", _other);
                 }
